@@ -274,6 +274,73 @@ pub fn c10(cfg: &J) {
     }
 }
 
+/// An entry that owns something else (here: a handle of the very sink it is sent to), and the
+/// inner sink that unwraps it.
+pub struct Carrying {
+    entry: <Call as CloseValue>::Closed,
+    cargo: Option<Box<dyn std::any::Any + Send>>,
+}
+struct Unwrapping(KeyedAggregator<Call, DownSink>);
+impl metrique_aggregation::traits::AggregateSink<Carrying> for Unwrapping {
+    fn merge(&mut self, c: Carrying) {
+        metrique_aggregation::traits::AggregateSink::merge(&mut self.0, c.entry);
+        // the cargo (possibly the last handle of the sink) is dropped here, on the worker thread
+        drop(c.cargo);
+    }
+}
+impl metrique_aggregation::traits::FlushableSink for Unwrapping {
+    fn flush(&mut self) {
+        metrique_aggregation::traits::FlushableSink::flush(&mut self.0)
+    }
+}
+
+/// C10, "a worker sink emits what it still holds and its thread terminates once its last handle
+/// is dropped" where the last handle is dropped BY THE WORKER THREAD: a queued entry owns a clone
+/// of the sink, every other handle goes away before the worker reaches that entry.
+pub fn c10_last_handle_on_worker(cfg: &J) {
+    let extra = cfg["extra"].as_u64().unwrap_or(1);
+    let log = Arc::new(Mutex::new(Vec::new()));
+    let down = DownSink { shadow: LArc::new(Shadow::new()), log: log.clone() };
+    let sink: WorkerSink<Carrying, Unwrapping> = WorkerSink::new(Unwrapping(KeyedAggregator::new(down)), Duration::from_secs(1));
+    for i in 0..extra {
+        sink.send(Carrying { entry: call("a", 1 + i), cargo: None });
+    }
+    let inside = sink.clone();
+    sink.send(Carrying { entry: call("b", 7), cargo: Some(Box::new(inside)) });
+    drop(sink); // from now on the only handle is the one travelling in the queue
+    let gone = |log: &Arc<Mutex<Vec<AEv>>>| log.lock().unwrap().last() == Some(&AEv::SinkDropped);
+    let mut rounds = 0;
+    while !gone(&log) && rounds < 3 {
+        let l = log.clone();
+        vtime::advance_when_idle(Duration::from_millis(1100), move || l.lock().unwrap().last() == Some(&AEv::SinkDropped));
+        rounds += 1;
+        let l = log.clone();
+        vtime::advance_when_idle(Duration::ZERO, move || l.lock().unwrap().last() == Some(&AEv::SinkDropped));
+    }
+    let end: Vec<AEv> = log.lock().unwrap().clone();
+    mc::outcome(format!("{end:?}"));
+    if !gone(&log) {
+        mc::violation("worker-never-terminates", format!("the last WorkerSink handle was dropped (by the worker thread, inside a merge) but after {rounds} flush intervals the inner aggregator has not been dropped: {end:?}"));
+    }
+    thread::wait_all_spawned();
+    let mut have: BTreeMap<String, (u64, u64)> = BTreeMap::new();
+    for e in &end {
+        if let AEv::Emit(e) = e {
+            let x = have.entry(e.key.clone()).or_default();
+            x.0 += e.count;
+            x.1 += e.weight;
+        }
+    }
+    let mut need: BTreeMap<String, (u64, u64)> = BTreeMap::new();
+    if extra > 0 {
+        need.insert("a".to_string(), (extra, (1..=extra).sum()));
+    }
+    need.insert("b".to_string(), (1, 7));
+    if have != need {
+        mc::violation("inputs-not-conserved", format!("the last handle was dropped by the worker thread itself; emitted per key (count, weight) {have:?} but the inputs were {need:?}: {end:?}"));
+    }
+}
+
 // ------------------------------------------------------------------------------------------
 // MutexSink: merges from several threads racing the close
 
